@@ -43,3 +43,10 @@ Definition latex_url1 (c : rune) : str :=
   if c =? 37 then [92;37] else if c =? 123 then [92;37;55;66] else if c =? 125 then [92;37;55;68] else if c =? 92 then [92;37;53;67] else [c].
 Definition latex_url (s : str) : str := flat_map latex_url1 s.
 Definition contains_any (chars s : str) : bool := existsb (fun c => existsb (N.eqb c) chars) s.
+(* the character sets of the source's guards (tied to the source by Proofs/CharSets.v) *)
+Definition brace_chars : str := [123; 125].
+Definition tex_name_bad_chars : str := [123; 125; 92].
+Definition id_unsafe_chars : str := [38; 60; 62; 34; 39].
+Definition key_bad_chars : str := [34; 39; 62; 47; 61; 60; 38].
+Definition key_bad_first : str := [48; 49; 50; 51; 52; 53; 54; 55; 56; 57; 45; 46].
+Definition anchor_tail_chars : str := [48; 49; 50; 51; 52; 53; 54; 55; 56; 57; 45].
